@@ -37,7 +37,8 @@ RULE = ("operation histories over {t[key] (int, negative int, slice incl. revers
         "observers inside the history (each must leave every trajectory object identical), slice(copy=False), join / + / join(list) / md.join each with discard_overlapping_frames off and on "
         "(a dedicated stream joins consecutive chunks of one run that share a frame: centred before or after the cut, "
         "one or two seams, equal xyz with different time, two-frame overlaps, one-frame operands, empty operands), stack, atom_slice(inplace F/T), remove_solvent, "
-        "center_coordinates(mass_weighted F/T), superpose, xyz/time/unitcell_* assignment (fresh or shared arrays)} on "
+        "center_coordinates(mass_weighted F/T), superpose, xyz/time/unitcell_* assignment (fresh or shared arrays; a stream assigns time to "
+        "trajectories constructed without one and then takes atom subsets / slices)} on "
         "2-3 initial trajectories (2-6 frames, 3-5 atoms, with/without cell; time axis absent (int64 arange) / int64 / float32 / "
         "float64 with fractional values, mixed across operands in both orders; xyz and unit-cell arrays handed over as C float32, "
         "float64, Fortran-ordered or non-contiguous arrays of the same values; every value compared exactly in float64); operands are drawn "
@@ -1005,6 +1006,39 @@ def observer_history(rng, specs, length):
     return ops
 
 
+def assigned_time_history(rng, specs):
+    """registers constructed without time get a time array assigned (fresh of any dtype, or another register's), then an
+    atom subset / slice / join is taken: the result must carry the assigned values"""
+    specs[0][3] = False
+    if len(specs) > 1 and rng.random() < 0.5:
+        specs[1][3] = False
+    n0 = specs[0][0]
+    na = sum(len(c) for c in specs[0][1])
+    R = len(specs)
+    ops = []
+    if rng.random() < 0.25:
+        ops.append(["slice", 0, ["slice", [None, None, rng.choice([None, -1])]], rng.random() < 0.7])   # the flag is inherited? (no: time is passed)
+    if rng.random() < 0.75:
+        ops.append(["set_time_new", 0, n0, rng.choice(["i8", "f4", "f8", True])])
+    else:
+        cands = [i for i in range(1, R) if specs[i][0] == n0]
+        ops.append(["set_time_share", 0, rng.choice(cands)] if cands else ["set_time_new", 0, n0, "f8"])
+    for _ in range(rng.randint(1, 3)):
+        w = rng.random()
+        idx = sorted(rng.sample(range(na), rng.randint(1, na)))
+        if w < 0.4:
+            ops.append(["atom_slice", 0, idx, False])
+        elif w < 0.6:
+            ops.append(["remove_solvent", 0, False])
+        elif w < 0.8:
+            ops.append(["restrict_atoms", 0, idx, False])
+        elif w < 0.9:
+            ops.append(["slice", 0, rand_key(rng, n0), True])
+        else:
+            ops.append(["center", 0, False])
+    return ops
+
+
 def fixed_probes():
     """the historical witnesses and a few structural probes, always run first"""
     s3 = [[5, [[1, 2, 100], [4]], True, True], [3, [[1, 2, 100], [4]], True, True], [5, [[8, 9, 10, 11]], False, False]]
@@ -1069,6 +1103,16 @@ def fixed_probes():
                    ["slice", 0, ["array32", [-1, 2]], True], ["slice", 0, ["tuplearr", [1, 1]], True],
                    ["slice", 0, ["masklist", [True, False, True, True, False]], True], ["slice", 0, ["arr0d", 2], False],
                    ["slice", 0, ["range", [1, 3, 1]], False], ["slice", 0, ["masklist", [False] * 5], True]]))
+    # a trajectory built WITHOUT time (_time_default_to_arange stays set for ever) whose time is assigned afterwards: every
+    # atom subset (atom_slice / remove_solvent / restrict_atoms, inplace=False), slice, join and stack must carry the
+    # ASSIGNED times, for each dtype of the assigned array; the same after the assigned array was shared from another object
+    sn = [[4, [[1, 2, 100], [4]], True, False], [4, [[1, 2, 100], [4]], False, "f8"], [3, [[5, 100, 6, 7]], False, False]]
+    P.append((sn, [["set_time_new", 0, 4, "f8"], ["atom_slice", 0, [0, 2], False], ["remove_solvent", 0, False],
+                   ["restrict_atoms", 0, [1, 3], False], ["slice", 0, ["slice", [1, None, None]], True], ["atom_slice", 6, [0], False],
+                   ["set_time_share", 2, 2], ["set_time_new", 2, 3, "i8"], ["remove_solvent", 2, False], ["atom_slice", 2, [3, 0], False],
+                   ["join", 0, [0], True], ["stack", 0, 1]]))
+    P.append((sn, [["set_time_share", 0, 1], ["atom_slice", 0, [1], False], ["set_time_new", 0, 4, "f4"], ["remove_solvent", 0, False],
+                   ["atom_slice", 0, [0, 1], True], ["restrict_atoms", 0, [0], False], ["atom_slice", 1, [0], False]]))
     return [{"specs": s, "ops": o, "stream": "probe"} for s, o in P]
 
 
@@ -1100,6 +1144,9 @@ def build_cases(ctx):
         specs = gen_specs(rng)
         cases.append({"specs": specs, "ops": observer_history(rng, specs, rng.randint(1, 6)), "stream": "observers-after-history",
                       "bonded": rng.random() < 0.5})
+    for i in range(20 if quick else 200):
+        specs = gen_specs(rng)
+        cases.append({"specs": specs, "ops": assigned_time_history(rng, specs), "stream": "time-assigned-after-construction"})
     for L in ([1, 2] if quick else [1, 2, 3]):
         for ops in exhaustive_histories(L):
             cases.append({"specs": EXH_SPECS, "ops": ops, "stream": "exhaustive%d" % L})
